@@ -923,14 +923,14 @@ def parse_template(text):
         if mm:
             cur.desugar_for = [int(x) for x in mm.group(1).replace(",", " ").split()]
             i += 1; continue
-        mm = re.match(r'^closure\s+"((?:[^"\\]|\\.)*)"\s*(?:#(\d+))?\s*->\s*(\([^)]*\))\s*(?:requires\s+(.*?)\s+)?ensures\s*:\s?(.*)$', body)
+        mm = re.match(r'^closure\s+"((?:[^"\\]|\\.)*)"\s*(?:#(\d+))?\s*->\s*(\((?:[^()]|\([^()]*\))*\))\s*(?:requires\s+(.*?)\s+)?ensures\s*:\s?(.*)$', body)
         if mm:
             c = Clause("closure", "", mm.group(5))
             c.loop = -2
             rd = mm.group(3) + (f" requires {mm.group(4)}" if mm.group(4) else "")
             cur.closures.append([("anchor", _unesc(mm.group(1)), int(mm.group(2) or 1)), rd, c])
             last = ("clause", c); i += 1; continue
-        mm = re.match(r"^closure\s+(\d+)\s*->\s*(\([^)]*\))\s*(?:requires\s+(.*?)\s+)?ensures\s*:\s?(.*)$", body)
+        mm = re.match(r"^closure\s+(\d+)\s*->\s*(\((?:[^()]|\([^()]*\))*\))\s*(?:requires\s+(.*?)\s+)?ensures\s*:\s?(.*)$", body)
         if mm:
             c = Clause("closure", "", mm.group(4))
             c.loop = -2
